@@ -31,6 +31,12 @@ pub fn collect(blocks: &mut Vec<Block>, setup: &mut Report) {
 
 type Entry = (SynNoRefUnit, SynNoRefUnit, A, A);
 
+/// the table reached through a generic bound, i.e. through the `Converter` trait and not through whatever method of
+/// the concrete type method-call syntax may resolve to
+fn via_bound<Q: Quantity, C: Converter<Q>>(c: C, q: &Q, to: Q::UnitType) -> Option<Q> {
+    c.convert(q, to)
+}
+
 /// 9 (from, to) pairs including from = to  x  3 (factor, offset) kinds
 fn entry_kinds(b: &Bind<SynNoRef>) -> Vec<Entry> {
     let maps = [("1", "0"), ("2", "0.5"), ("-1.8", "32")];
@@ -137,8 +143,12 @@ fn tables_small(b: Bind<SynNoRef>, rep: &mut Report) {
     rep.count("entry_kinds", kinds.len() as u64);
     judge_table(&[], |q, to| ConversionTable::<SynNoRef, 0> { mappings: [] }.convert(q, to), &b, rep);
     for &e in &kinds {
+        // three entry points: method-call syntax, the fully qualified trait method, a generic bound
         judge_table(&[e], |q, to| ConversionTable::<SynNoRef, 1> { mappings: [e] }.convert(q, to), &b, rep);
+        judge_table(&[e], |q, to| <ConversionTable<SynNoRef, 1> as Converter<SynNoRef>>::convert(ConversionTable::<SynNoRef, 1> { mappings: [e] }, q, to), &b, rep);
+        judge_table(&[e], |q, to| via_bound(ConversionTable::<SynNoRef, 1> { mappings: [e] }, q, to), &b, rep);
     }
+    judge_table(&[], |q, to| via_bound(ConversionTable::<SynNoRef, 0> { mappings: [] }, q, to), &b, rep);
     rep.sample(json!({"tables": "N=0 and all 27 tables with N=1"}));
 }
 
@@ -153,15 +163,15 @@ fn tables_poison(b: Bind<SynNoRef>, rep: &mut Report) {
         (u[2], u[0], amt::parse("-99999999999999999"), amt::parse("0.000000000000000273")),
     ];
     for &p in &poison {
-        judge_table(&[p], |q, to| ConversionTable::<SynNoRef, 1> { mappings: [p] }.convert(q, to), &b, rep);
+        judge_table(&[p], |q, to| via_bound(ConversionTable::<SynNoRef, 1> { mappings: [p] }, q, to), &b, rep);
         for &e in &kinds {
-            judge_table(&[p, e], |q, to| ConversionTable::<SynNoRef, 2> { mappings: [p, e] }.convert(q, to), &b, rep);
-            judge_table(&[e, p], |q, to| ConversionTable::<SynNoRef, 2> { mappings: [e, p] }.convert(q, to), &b, rep);
+            judge_table(&[p, e], |q, to| via_bound(ConversionTable::<SynNoRef, 2> { mappings: [p, e] }, q, to), &b, rep);
+            judge_table(&[e, p], |q, to| via_bound(ConversionTable::<SynNoRef, 2> { mappings: [e, p] }, q, to), &b, rep);
             rep.count("poison_tables", 2);
             for &e2 in kinds.iter().step_by(if thorough() { 1 } else { 4 }) {
-                judge_table(&[p, e, e2], |q, to| ConversionTable::<SynNoRef, 3> { mappings: [p, e, e2] }.convert(q, to), &b, rep);
-                judge_table(&[e, p, e2], |q, to| ConversionTable::<SynNoRef, 3> { mappings: [e, p, e2] }.convert(q, to), &b, rep);
-                judge_table(&[e, e2, p], |q, to| ConversionTable::<SynNoRef, 3> { mappings: [e, e2, p] }.convert(q, to), &b, rep);
+                judge_table(&[p, e, e2], |q, to| via_bound(ConversionTable::<SynNoRef, 3> { mappings: [p, e, e2] }, q, to), &b, rep);
+                judge_table(&[e, p, e2], |q, to| via_bound(ConversionTable::<SynNoRef, 3> { mappings: [e, p, e2] }, q, to), &b, rep);
+                judge_table(&[e, e2, p], |q, to| via_bound(ConversionTable::<SynNoRef, 3> { mappings: [e, e2, p] }, q, to), &b, rep);
                 rep.count("poison_tables", 3);
             }
         }
@@ -173,12 +183,12 @@ fn tables_from(b: Bind<SynNoRef>, first: usize, rep: &mut Report) {
     let kinds = entry_kinds(&b);
     let e0 = kinds[first];
     for &e1 in &kinds {
-        judge_table(&[e0, e1], |q, to| ConversionTable::<SynNoRef, 2> { mappings: [e0, e1] }.convert(q, to), &b, rep);
+        judge_table(&[e0, e1], |q, to| via_bound(ConversionTable::<SynNoRef, 2> { mappings: [e0, e1] }, q, to), &b, rep);
         for &e2 in &kinds {
-            judge_table(&[e0, e1, e2], |q, to| ConversionTable::<SynNoRef, 3> { mappings: [e0, e1, e2] }.convert(q, to), &b, rep);
+            judge_table(&[e0, e1, e2], |q, to| via_bound(ConversionTable::<SynNoRef, 3> { mappings: [e0, e1, e2] }, q, to), &b, rep);
             if thorough() {
                 for &e3 in &kinds {
-                    judge_table(&[e0, e1, e2, e3], |q, to| ConversionTable::<SynNoRef, 4> { mappings: [e0, e1, e2, e3] }.convert(q, to), &b, rep);
+                    judge_table(&[e0, e1, e2, e3], |q, to| via_bound(ConversionTable::<SynNoRef, 4> { mappings: [e0, e1, e2, e3] }, q, to), &b, rep);
                 }
             }
         }
@@ -250,6 +260,21 @@ fn temperature(b: Bind<Temperature>, iu: usize, rep: &mut Report) {
                 let ar = rat_of(a).unwrap();
                 let spec = map_spec(&ErrVal::exact(ar.clone()), b.vname(i), b.vname(j));
                 let dom = in_domain(&ar) && in_domain(&spec.v);
+                // the trait method (reached through a generic bound) must answer exactly like method-call syntax
+                if level == 0 {
+                    rep.inc("transitions");
+                    let by_method = conv(a, i, j);
+                    let by_trait = guard(|| via_bound(TEMPERATURE_CONVERTER, &Temperature::new(a, b.units[i]), b.units[j]).map(|r| (r.amount(), r.unit())));
+                    let same = match (&by_method, &by_trait) {
+                        (Ok(Some((x, u))), Ok(Some((y, v)))) => amt::same(*x, *y) && u == v,
+                        (Ok(None), Ok(None)) | (Err(_), Err(_)) => true,
+                        _ => false,
+                    };
+                    if !same {
+                        rep.violation("C14/entry-points-disagree", mk(), format!("Converter::convert: {:?}", by_trait.map(|o| o.map(|(x, u)| format!("{} {:?}", amt::show(x), u)))),
+                            format!("as by method-call syntax: {:?}", by_method.map(|o| o.map(|(x, u)| format!("{} {:?}", amt::show(x), u)))));
+                    }
+                }
                 match conv(a, i, j) {
                     Err(p) => {
                         if dom || amt::BACKEND_NAME == "f64" {
